@@ -720,6 +720,13 @@ def families(tier, seed):
         with_array_layouts(_win, select=lambda c: tuple(c[2]) == (4, 4, 4), expect=("window-voxels", "outside-is-volume-mean")),
         with_array_layouts(_one, select=lambda c: tuple(c[3]) == (0.0, 0.0, 0.0) and c[2] == "geom1", expect=("stamped-voxel-set",)),
     ]
+    from ..motlgen import with_row_index_kinds
+    _link = Family("link-motl-map", link_cases, exec_link, describe=d_link)
+    _plist = Family("place-list", list_cases, exec_place_list, describe=d_list)
+    layout_fams += [
+        with_row_index_kinds(_plist, kinds=("gapped", "reversed", "repeated"), expect=("stamped-voxel-set", "stamp-colour")),
+        with_row_index_kinds(_link, select=lambda c: c[2] == 20 and c[0][1] in (0.0, 90.0, 180.0), expect=("map-rotation-matches-shift-positions",)),
+    ]
     return layout_fams + [
         Family("rot90-delta", delta_cases, exec_rot_delta, describe=d_delta, expect=("delta-lands-at-Rv", "delta-elsewhere-zero")),
         Family("rot90-codes", code_cases, exec_rot_codes, describe=d_codes, expect=("codes-permuted-exactly", "right-angle-inverse-restores")),
